@@ -167,6 +167,9 @@ def check(ctx):
                    nontrivial=True)
         else:
             ctx.ob("C04.E5x", site, "start returns a negative error, 0 (in child) or 1 (started)", False, {"returns": show(rv)})
+    # the program looked up is the requested one as it resolves now (the prefix comes from a getcwd() of this very start: C03.P4g)
+    from . import c03
+    c03.fresh_cwd_rule(ctx, prog)
     ctx.floor("C04.E1", 20)
     ctx.floor("C04.E3", 2)
     ctx.floor("C04.E5", 2)
